@@ -61,6 +61,8 @@ def reader_inputs(rnd, tier):
             ("two-dots", b"real x = 1.2.3;"), ("lone-dot", b"real x = .;"), ("byte-ff", b"real x;\xff real y;"), ("nul-byte", b"real x;\x00 real y;"),
             ("only-operators", b"== <= -> ^^ || &&"), ("empty", b""), ("whitespace", b" \t\r\n"),
             ("deep-parens", b"real x; x == " + b"(" * 2000 + b"1" + b")" * 2000 + b";"), ("deep-unary", b"real x; x == " + b"-" * 2000 + b"1;"),
+            ("very-deep-parens", b"real x; x == " + b"(" * 150000 + b"1" + b")" * 150000 + b";"), ("very-deep-unary", b"real x; x == " + b"!" * 300000 + b"true;"),
+            ("very-deep-blocks", b"{" * 150000 + b"real x;" + b"}" * 150000), ("very-deep-classes", b"".join(b"class C%d {" % i for i in range(60000)) + b"}" * 60000),
             ("deep-blocks", b"{" * 500 + b"real x;" + b"}" * 500), ("deep-nested-classes", b"".join(b"class C%d {" % i for i in range(300)) + b"}" * 300),
             ("keyword-soup", b"class class predicate goal fact new or this void return"), ("dangling-new", b"real x = new ;"), ("cast-soup", b"real x = (a.b.c) (d) e;")]
     # syntactically fine, semantically wrong or unsupported: must end in a reported error (or be accepted), never in terminate / a crash
@@ -74,6 +76,8 @@ def reader_inputs(rnd, tier):
            "class M { real v; M() { v == inc(2); } real inc(real x) { return x + 1.0; } } M m = new M();", "class M { void h() { } M() { h(); } } M m = new M();",
            "class M { real f(real x) { return f(x); } real v; M() { v == 1.0; } } M m = new M();", "goal g = new Nothing();", "real r; goal g = new r.P();", "predicate P() { } fact f = new P(z:1.0);",
            "class A { } A a = new A(1.0);", "class A { A(real x) { } } A a = new A();", "class A : A { }", "class A : B { } class B : A { }", "enum E {\"x\"} | F; enum F {\"y\"} | E; E e;",
+           "tp t; tp u; u != t / 2;", "tp t; tp u; u == t * 2;", "class A { real w; A(real x) : w() {} } A a = new A(1.0);", "class A { real w; A(real x) : w(x, x) {} } A a = new A(1.0);",
+           "class A { real w; A(real x) : nothing(x) {} } A a = new A(1.0);", "class A { real w; } class B : A { B() : A(1.0) {} } B b = new B();",
            "real r = true;", "bool b = 1.0;", "real r; r.x == 1.0;", "class A { real w; } A a; a.w.w == 1.0;", "real r; real r;", "class A { } class A { }", "predicate P() { } predicate P() { }"]
     for p in sem:
         out.append(("semantic-error", p.encode()))
